@@ -74,7 +74,11 @@ pub fn binary_section(b: &[u8]) -> Option<(usize, usize)> {
     let mut total = 0u128;
     for _ in 0..j {
         let line = next_line(&mut pos)?;
-        total += std::str::from_utf8(line).ok()?.parse::<u128>().ok()?;
+        let v = std::str::from_utf8(line).ok()?.parse::<u128>().ok()?;
+        if v > 1_000_000 {
+            return None;
+        }
+        total += v;
         if total > 1_000_000 {
             return None;
         }
@@ -559,10 +563,10 @@ pub fn check_exact(c: &ExactCase, obs: &mut Obs) -> CheckResult {
 }
 
 fn run(ctx: &Ctx) {
-    let n = ctx.share(ctx.tier.pick(150_000, 3_000_000));
+    let n = ctx.share(ctx.tier.pick(1_200_000, 12_000_000));
     let strat = (input_strategy(8, true), feed_strategy()).prop_map(|(input, feed)| BoundsCase { input, feed });
     ctx.run_cases("bounds", n, strat, check_bounds);
-    let n = ctx.share(ctx.tier.pick(120_000, 2_400_000));
+    let n = ctx.share(ctx.tier.pick(1_000_000, 10_000_000));
     let strat = spec_strategy()
         .prop_flat_map(|spec| {
             (
